@@ -108,6 +108,7 @@ def main():
     mod = importlib.import_module(prop.lower())
     queries = [q for q in mod.QUERIES if only is None or q.name == only]
     budget = getattr(mod, "BUDGET", {"quick": 420, "thorough": 2400})[tier]
+    budget = int(os.environ.get("VERIF_BUDGET", budget))      # development aid (smoke runs of the thorough tier); never set by the MANIFEST commands
     scratch_root = tempfile.mkdtemp(prefix="verif_%s_" % prop)
     os.makedirs(os.path.join(VERIF, "evidence", "replays"), exist_ok=True)
     violations, errors, notes = [], [], []
